@@ -40,7 +40,7 @@ CLAIMED = {
  "C13": (GENERIC % "HashSet, LinkedHashSet and TreeSet Intersection/Union/Difference: exact membership, operands unchanged (frame), result freshly allocated with the operands' comparator; identical-operand case included.",
          NOTE % "none of the nine operations.", "DESIGN.md §4 C13"),
  "C14": (GENERIC % "Each (exact callback sequence through a ghost call log: the iterator's pairs at positions 0..n-1, in order, once each), Any/All/Find (exists / for-all / first match), Select (exactly the matching elements, original relative order via ghost position maps or ranks, same comparator) and Map on the three lists, TreeSet, LinkedHashSet, TreeMap, LinkedHashMap; Each/Any/All/Find on TreeBidiMap; receiver unchanged (frame) and result freshly allocated.",
-         NOTE % "Map on sets/maps is proved in the direction 'every mapped element is in the result' (and size bound) only; TreeBidiMap.Map only soundness of the result, size bound and presence of the last mapped pair (a many-to-one f evicts, as repeated Put does).", "DESIGN.md §4 C14"),
+         NOTE % "Map on TreeSet, LinkedHashSet, TreeMap and LinkedHashMap is proved in both directions (every mapped element/key is in the result; every element/key of the result is a mapped one, with a mapped value for the maps) and with the size bound, but not that the last of several colliding keys wins; TreeBidiMap.Map only soundness of the result, size bound and presence of the last mapped pair (a many-to-one f evicts, as repeated Put does).", "DESIGN.md §4 C14"),
  "C15": (GENERIC % "Size/Empty/Values/Keys/Clear agreement for every container under contract (incl. the B-tree's observers over the tree-level ghost invariant), and String() of 20 containers (incl. the red-black and AVL trees): begins with the container's name (string constants decided by Go's own strings.HasPrefix, concatenation and TrimRight by axioms) and writes nothing.",
          NOTE % "the text of BTree.String() (built in a bytes.Buffer the engine does not model) is checked by the bounded stand-in only; String() of RedBlackTree and AVLTree is proved (name prefix through the recursive output(…, *string), empty frame, termination), BTree String()/output are proved to return normally, terminate and write nothing.", "DESIGN.md §4 C15"),
  "C16": (GENERIC % "freshness of returned slices and ownership of stored slices (Owned two-state predicate) for every Values()/Keys() under contract; argument slices are only read (frame); containers.GetSortedValues/GetSortedValuesFunc sort the snapshot returned through the interface (assumed interface contract: Values() returns a fresh slice, which every implementation is proved to do) and have an empty frame.",
